@@ -79,6 +79,35 @@ CHECKS = {
              'only done or DiffXParseError with 0 <= line <= physical lines and a message that agrees with '
              'line/column, only library-family errors from the object model, and a closed stream.',
         ref='6 C08'),
+    'C07': dict(
+        technique='TLA+ spec (MC_Writer Framed: every cut of every reachable output, STRICT Reader.tla; FramedAB '
+                  'counterexample for the open finding) + exhaustive truncation/length-perturbation enumeration '
+                  'through DiffXReader + TLC trace validation (Trace_Reader cut mode)',
+        text='Framed is an invariant of Writer.tla x Reader.tla in small scope. Every truncation point of every '
+             'generated canonical/foreign file and every content length set beyond the data / negative / '
+             'non-numeric is read by DiffXReader; TLC requires a prefix of the intact records and a normal end, '
+             'and recognises exactly the as-built short-read deviation (known finding F9) by deriving the '
+             'deviating record from ReadFileAB.',
+        ref='6 C07'),
+    'C17': dict(
+        technique='TLA+ spec of the chunked read-ahead (ReadUntil.tla, complete small-scope graph) + '
+                  'file x padding x block-size enumeration through DiffXReader + TLC trace validation '
+                  '(Trace_Reader unknown mode)',
+        text='ReadUntil.tla: no loss/duplication for all streams <= N x block sizes x start positions. For each '
+             'file and each padding of the first header all block sizes (1.., > file) must give identical '
+             'records; TLC checks the agreed records against the unpadded default-block reading (equal, plus the '
+             'padding option).',
+        ref='6 C17'),
+    'C04': dict(
+        technique='TLA+ spec (Scope.tla: writer/reader stack disciplines vs nearest declared ancestor, explored to '
+                  'fix-point) + TLC-generated nesting histories replayed into DiffXWriter/DiffXReader + TLC trace '
+                  'validation (Trace_WriteRead scope clauses, Trace_Reader scope mode)',
+        text='All container histories of any length are covered at the design level by the fix-point of Scope.tla '
+             '(WEff, REff, NoLeak). Accepted paths to the bound and container-heavy walks to depth 40 with '
+             'independent encoding choices are executed; TLC checks that each probe\'s content bytes decode in the '
+             'nearest declared encoding (writer) and that the reader returns the content ReadFile specifies '
+             '(reader, also on independently rendered foreign files), the two sides judged separately.',
+        ref='6 C04'),
 }
 
 PENDING = {}
